@@ -115,6 +115,11 @@ func (c *AdapterProxy) Recv(pkg []byte) {
 
 // Send : Send packet
 func (c *AdapterProxy) Send(req *requestf.RequestPacket) error {
+	return c.SendContext(context.Background(), req)
+}
+
+// SendContext is Send bounded by the caller's context
+func (c *AdapterProxy) SendContext(ctx context.Context, req *requestf.RequestPacket) error {
 	TLOG.Debug("send req:", req.IRequestId)
 	c.sendAdd()
 	sbuf, err := c.servantProxy.proto.RequestPack(req)
@@ -122,7 +127,7 @@ func (c *AdapterProxy) Send(req *requestf.RequestPacket) error {
 		TLOG.Debug("protocol wrong:", req.IRequestId)
 		return err
 	}
-	return c.tarsClient.Send(sbuf)
+	return c.tarsClient.SendContext(ctx, sbuf)
 }
 
 // GetPoint get an endpoint
